@@ -130,13 +130,15 @@ class World:
                     obs[d] = None if ent is None else (
                         _status_code(ent.get('status')), ent.get('payload'),
                         ent.get('start_clock') is not None and ent.get('end_clock') is not None,
-                        world.exec_count[d],
+                        world.expected_payload[d],
                         # what dependency d filed under THIS task's name, and what it should be
                         own.get(f'gift_{d}') if isinstance(own, dict) else 'junk',
                         world.gifts.get((d, self.idx)))
                 ctl.note('obs', obs)
                 kind, _, var = world.outcomes[self.idx].partition(':')
                 var = int(var or 0)
+                if kind in ('done', 'intstatus', 'failupd', 'nested'):
+                    world.expected_payload[self.idx] = k     # this execution's update carries payload k
                 upd = {self.name: {'payload': k}}
                 if kind == 'nested':
                     # a task that schedules a small graph of its own, with the default backend
@@ -318,6 +320,9 @@ def run_history(world, case):
     full, sem_hard = semantic_deps(case)
     world.names = {f't{t}': t for t in range(n)}
     world.exec_count = list(case.get('started0') or [0] * n)
+    # the payload the environment should hold for each task (None: no update seen / entry not carried over)
+    world.expected_payload = [e[1] if e is not None else None for e in (case.get('init') or [None] * n)]
+    world.expected_payload += [None] * (n - len(world.expected_payload))
     Env = world.env_mod.Env
     TaskStatus = world.TaskStatus
     tasks = [world.Probe(t, full[t]) for t in range(n)]
@@ -483,6 +488,9 @@ def run_history(world, case):
             else:
                 env = Env()
                 env.merge_done_tasks(persisted)
+            for t in range(n):
+                if f't{t}' not in env.dictionary:
+                    world.expected_payload[t] = None
     return results
 
 
